@@ -4,6 +4,7 @@ import time
 
 from ..core import get_worker, rng_for, known_for, WorkerDied, WorkerTimeout
 from ..gen_text import Corpus, gen_input, TEMPLATES, EXTREME_LITERALS, mutate_tokens
+from ..gen_confuse import all_inputs as kc_inputs, PRELUDE as KC_PRELUDE
 
 LEVEL = "exploration"
 RULE = ("hostile text inputs: token/byte-level mutations and splices of the example and module corpus and of the "
@@ -11,7 +12,12 @@ RULE = ("hostile text inputs: token/byte-level mutations and splices of the exam
         "every prelude function called with hostile arguments (non-finite and extreme numbers with and without units, empty/odd "
         "strings, empty and nested lists, edge dates, function values), "
         "and size-class templates (nesting, operator runs, long identifiers/strings/lists, chains) at sizes 1..1000 "
-        "that must pass and 20 000 / 100 000 where unbounded recursion is a documented finding. Each input runs in a "
+        "that must pass and 20 000 / 100 000 where unbounded recursion is a documented finding; plus the exhaustive "
+        "kind-confusion table (vf/gen_confuse.py): ~300 one-hole constructs (definitions, annotations, decorators, calls, "
+        "unary/postfix operators, conversions, lists, conditionals, interpolations with format specifiers, struct "
+        "literals, procedures, library functions) x 78 operand spellings of 18 kinds (scalar, quantity, unit, bool, string, "
+        "list, datetime, function, procedure, struct, type name, `ans`, typed hole, ...) and 26 binary operators + 58 "
+        "two-hole constructs x 22 x 22 operand representatives (~65 000 inputs). Each input runs in a "
         "fresh fork of a prelude session (a sample also in a session with history) in the *checked* build (overflow "
         "checks, debug assertions, opcode-validity hook); every error is rendered to plain text and HTML. Panics are "
         "captured with message and first in-crate frame, crashes by worker death, hangs by a 15 s budget confirmed by an "
@@ -339,6 +345,10 @@ def prepare_bases(w):
     r = w.eval("hist", HISTORY, stmts=False)
     if not r.get("ok"):
         raise RuntimeError(f"history session failed: {r.get('msg')}")
+    w.fork("p", "kc")
+    r = w.eval("kc", KC_PRELUDE, stmts=False)
+    if not r.get("ok"):
+        raise RuntimeError(f"kind-confusion base session failed: {r.get('msg')}")
 
 
 def run_shard(sh, spec):
@@ -364,6 +374,15 @@ def run_shard(sh, spec):
             continue
         sh.count_in("fixed_strata", c["kind"])
         run_inputs(sh, w, known, [c["code"]], "p")
+    # 1b. kind confusion: every construct with operands of every kind of value (exhaustive table, split over shards)
+    for i, (construct, kinds, code) in enumerate(kc_inputs()):
+        if i % n != idx:
+            continue
+        body = code[len(KC_PRELUDE):]
+        sh.count("kind_confusion_inputs")
+        if "," not in kinds:
+            sh.count_in("kind_confusion_operand_kinds(one-hole constructs)", kinds)
+        run_inputs(sh, w, known, [body], "kc", libcall="count_driven" if (BOMB_FN.search(body) and BIG_NUM.search(body)) else None)
     # 2. big size classes: documented finding when they overflow the stack
     big = []
     for t in TEMPLATES:
